@@ -1,1 +1,216 @@
-/-! C22 — property theorems (stub: nothing proved yet). -/
+import B6.Model.Simplify
+import B6.Model.VM
+import B6.Spec.Query
+import B6.Lemmas.Simplify
+/-!
+C22 — simplification never changes a program's result.
+
+Model: `B6.Model.Simplify` mirrors `api.Simplify` (shell.go) with the repairs
+`fixes/C22-eta-reduction.patch` and `fixes/C22-function-position.patch`, including what Go's slice
+sharing does to the output tree; tied to the code on every run (`harness/cmd/c22`: returned tree,
+argument tree afterwards, and `Evaluate` of both programs).
+
+* `simplify_query_denote`, `canon_denote` (proved, all queries): flattening keeps what a query matches.
+* `simplify_scope` (proved, all programs, any function table): "never leaves a lambda parameter
+  unbound or moves a value into the function namespace" — every symbol free in value position in the
+  result was free in value position in the input or names a global function; every symbol in
+  function position in the result was in function position in the input or names a global function.
+  The unrepaired code violated both halves (`{a -> add a a}` ↦ `add a`;
+  `{f -> pair (({-> f}) 5 6) 1}` ↦ `{f -> pair (f 5 6) 1}`): corpus witnesses of the harness.
+* `simplify_preserves_statement`: the semantic half (the simplified program has the interpreter's
+  meaning of the original) for programs in which no lambda parameter is named like a global function.
+  Not proved in general (it needs observational equivalence of function values: `{a -> f a}` and `f`
+  are different values); what is proved: each rewrite step at the root of a program
+  (`beta0_step`, `noarg_step`, `build_query_step`).  The side condition is forced:
+  `shadow_capture_counterexample` (finding `shadowed-global`).  The correspondence run compares
+  `Evaluate e` with `Evaluate (Simplify e)` and both with the interpreter on every generated program.
+-/
+namespace B6.Props.C22
+open B6.Model B6.Spec
+
+/-! ### query flattening keeps what a query matches -/
+
+theorem denoteAll_append (leaf : Query → Bool) (ty : String → Bool) : ∀ (as bs : List Query),
+    denoteAll leaf ty (as ++ bs) = (denoteAll leaf ty as && denoteAll leaf ty bs)
+  | [], bs => by simp [denoteAll]
+  | a :: as, bs => by simp [denoteAll, denoteAll_append leaf ty as bs, Bool.and_assoc]
+
+theorem denoteAny_append (leaf : Query → Bool) (ty : String → Bool) : ∀ (as bs : List Query),
+    denoteAny leaf ty (as ++ bs) = (denoteAny leaf ty as || denoteAny leaf ty bs)
+  | [], bs => by simp [denoteAny]
+  | a :: as, bs => by simp [denoteAny, denoteAny_append leaf ty as bs, Bool.or_assoc]
+
+mutual
+  /-- **simplify_query_denote.** `simplifyQuery` (the flattening `Simplify` applies to every query
+  literal it meets or builds) matches exactly the features the original query matches. -/
+  theorem simplify_query_denote (leaf : Query → Bool) (ty : String → Bool) :
+      (q : Query) → denote leaf ty (simplifyQuery q) = denote leaf ty q
+    | .inter qs => by simp only [simplifyQuery, denote]; exact flattenInter_denote leaf ty qs
+    | .union qs => by simp only [simplifyQuery, denote]; exact flattenUnion_denote leaf ty qs
+    | .typed _ _ => by simp [simplifyQuery]
+    | .keyed _ => by simp [simplifyQuery]
+    | .tagged _ _ => by simp [simplifyQuery]
+    | .other _ => by simp [simplifyQuery]
+  theorem flattenInter_denote (leaf : Query → Bool) (ty : String → Bool) :
+      (qs : List Query) → denoteAll leaf ty (flattenInter qs) = denoteAll leaf ty qs
+    | [] => by simp [flattenInter]
+    | q :: qs => by
+      have h1 := simplify_query_denote leaf ty q
+      have h2 := flattenInter_denote leaf ty qs
+      simp only [flattenInter, denoteAll_append, h2, denoteAll]
+      congr 1
+      rw [← h1]
+      split <;> simp_all [denote, denoteAll]
+  theorem flattenUnion_denote (leaf : Query → Bool) (ty : String → Bool) :
+      (qs : List Query) → denoteAny leaf ty (flattenUnion qs) = denoteAny leaf ty qs
+    | [] => by simp [flattenUnion]
+    | q :: qs => by
+      have h1 := simplify_query_denote leaf ty q
+      have h2 := flattenUnion_denote leaf ty qs
+      simp only [flattenUnion, denoteAny_append, h2, denoteAny]
+      congr 1
+      rw [← h1]
+      split <;> simp_all [denote, denoteAny]
+end
+
+mutual
+  /-- the canonical form in which the check compares query values (`Query.canon`: flattening at
+  every depth, also under `Typed`) matches the same features -/
+  theorem canon_denote (leaf : Query → Bool) (ty : String → Bool) :
+      (q : Query) → denote leaf ty q.canon = denote leaf ty q
+    | .inter qs => by simp only [Query.canon, denote]; exact canonInter_denote leaf ty qs
+    | .union qs => by simp only [Query.canon, denote]; exact canonUnion_denote leaf ty qs
+    | .typed t q => by simp only [Query.canon, denote, canon_denote leaf ty q]
+    | .keyed _ => by simp [Query.canon]
+    | .tagged _ _ => by simp [Query.canon]
+    | .other _ => by simp [Query.canon]
+  theorem canonInter_denote (leaf : Query → Bool) (ty : String → Bool) :
+      (qs : List Query) → denoteAll leaf ty (canonInter qs) = denoteAll leaf ty qs
+    | [] => by simp [canonInter]
+    | q :: qs => by
+      have h1 := canon_denote leaf ty q
+      have h2 := canonInter_denote leaf ty qs
+      simp only [canonInter, denoteAll_append, h2, denoteAll]
+      congr 1
+      rw [← h1]
+      split <;> simp_all [denote, denoteAll]
+  theorem canonUnion_denote (leaf : Query → Bool) (ty : String → Bool) :
+      (qs : List Query) → denoteAny leaf ty (canonUnion qs) = denoteAny leaf ty qs
+    | [] => by simp [canonUnion]
+    | q :: qs => by
+      have h1 := canon_denote leaf ty q
+      have h2 := canonUnion_denote leaf ty qs
+      simp only [canonUnion, denoteAny_append, h2, denoteAny]
+      congr 1
+      rw [← h1]
+      split <;> simp_all [denote, denoteAny]
+end
+
+/-- non-vacuity: a nested query really is flattened, and under `Typed` only by `canon` -/
+example :
+    simplifyQuery (.inter [.keyed "a", .inter [.keyed "b", .union [.keyed "c", .union [.keyed "d"]]]])
+      = .inter [.keyed "a", .keyed "b", .union [.keyed "c", .keyed "d"]] := rfl
+example : simplifyQuery (.typed "area" (.inter [.inter [.keyed "a"]])) = .typed "area" (.inter [.inter [.keyed "a"]])
+    ∧ Query.canon (.typed "area" (.inter [.inter [.keyed "a"]])) = .typed "area" (.inter [.keyed "a"]) := ⟨rfl, rfl⟩
+
+
+/-! ### scope -/
+
+open B6.Lemmas.Simplify in
+/-- **simplify_scope.** For every program and every function table: a symbol that is free in value
+position in `Simplify e` is free in value position in `e` or is the name of a global function, and a
+symbol in function position in `Simplify e` is in function position in `e` or is the name of a
+global function.  (`Simplify.scopeOK` is the same predicate the driver evaluates on the tree the Go
+code returns.) -/
+theorem simplify_scope (argc : String → Option Nat) (e s : Expr) (h : simplifyWith argc e = some s) :
+    Simplify.scopeOK argc e s = true := by
+  unfold simplifyWith at h
+  cases hb : Simplify.simplifyBoth argc (e.size + 1) e with
+  | none => simp [hb] at h
+  | some r =>
+    obtain ⟨s', m⟩ := r
+    simp only [hb, Option.map_some] at h
+    injection h with h; subst h
+    have h1 := ((simplifyBoth_good argc (e.size + 1)).sub e s' m hb).1
+    have h2 := ((simplifyBoth_goodFn argc (e.size + 1)).sub e s' m hb).1
+    simp only [Simplify.scopeOK, Bool.and_eq_true, List.all_eq_true, Bool.or_eq_true, List.contains_iff_mem]
+    exact ⟨fun x hx => h1 x hx, fun x hx => h2 x hx⟩
+
+private def i (n : Int) : Expr := .lit (.int n)
+private def c (f : Expr) (as : List Expr) : Expr := .call f as false
+
+/-- non-vacuity: programs on which each rule fires, and the repaired η-rule refusing the shapes the
+old code mangled -/
+example : simplify (.lam ["a"] (c (.sym "first") [.sym "a"])) = some (.sym "first") := rfl
+example : simplify (.lam ["a"] (c (.sym "mix") [.sym "a", i 2, i 3])) = some (c (.sym "mix") [i 2, i 3]) := rfl
+example : simplify (.lam ["a"] (c (.sym "add") [.sym "a", .sym "a"]))
+    = some (.lam ["a"] (c (.sym "add") [.sym "a", .sym "a"])) := rfl
+example : simplify (.lam ["a", "b"] (c (.sym "first") [.sym "a"]))
+    = some (.lam ["a", "b"] (c (.sym "first") [.sym "a"])) := rfl
+example : simplify (c (.sym "pair") [c (.sym "add") [], c (.lam [] (c (.sym "sub") [i 1, i 2])) []])
+    = some (c (.sym "pair") [.sym "add", c (.sym "sub") [i 1, i 2]]) := rfl
+example : simplify (c (.sym "and") [c (.sym "keyed") [.lit (.str "a")], .lit (.query (.inter [.keyed "b", .keyed "c"]))])
+    = some (.lit (.query (.inter [.keyed "a", .keyed "b", .keyed "c"]))) := rfl
+/-- the body of a lambda keeps its unsimplified root (the copy `lambda.Expression` is dropped), but
+arguments inside it are rewritten in place -/
+example : simplify (.lam ["x"] (c (c (.sym "add") []) [c (.sym "sub") []]))
+    = some (.lam ["x"] (c (c (.sym "add") []) [.sym "sub"])) := rfl
+/-- fix C22-function-position: the nullary call stays when its body is a lambda parameter -/
+example : simplify (.lam ["f"] (c (.sym "pair") [c (c (.lam [] (.sym "f")) []) [i 5, i 6], i 1]))
+    = some (.lam ["f"] (c (.sym "pair") [c (c (.lam [] (.sym "f")) []) [i 5, i 6], i 1])) := rfl
+
+/-! ### meaning -/
+
+/-- The semantic half of the property, with the side condition the counterexample below forces:
+for a well-formed program in which no lambda parameter is named like a global function, the
+simplified program has the same observable outcome as the original (data structurally, queries up to
+`Query.canon`, functions by arity), given enough fuel. -/
+def simplify_preserves_statement : Prop :=
+  ∀ (e s : Expr), wellFormed e = true → Simplify.shadowsGlobal e = false → simplify e = some s →
+    ∀ (fuel : Nat), interp fuel e ≠ .error .fuel →
+      ∃ fuel', (interp fuel' s).map (fun v => (Simplify.canonVal v).obs)
+             = (interp fuel e).map (fun v => (Simplify.canonVal v).obs)
+
+/-- `({-> b})` ↦ `b`: evaluating the nullary call with one more unit of fuel is evaluating the body -/
+theorem beta0_step (fuel : Nat) (env : Env) (b : Expr) (p : Bool) :
+    evalWith (applyFn (fuel + 1)) env (.call (.lam [] b) [] p) = evalWith (applyFn fuel) env b := by
+  simp [evalWith, evalArgs, applyFn, Val.isCallable]
+
+/-- `(f)` ↦ `f` for a global function `f` that wants arguments: the call makes a partial application
+holding no arguments, and applying that is applying `f` -/
+theorem noarg_step (fuel : Nat) (env : Env) (b : Builtin) (p : Bool) (hb : b.arity > 0)
+    (hn : Builtin.ofName b.name = some b) :
+    evalWith (applyFn (fuel + 1)) env (.call (.sym b.name) [] p) = .ok (.part (.builtin b) [] []) ∧
+    ∀ args, args.length = b.arity →
+      applyFn (fuel + 2) (.part (.builtin b) [] []) args = applyFn (fuel + 1) (.builtin b) args := by
+  constructor
+  · simp only [evalWith, evalArgs, hn, applyFn, List.length_nil]
+    have h1 : ¬ (0 > b.arity) := by omega
+    have h2 : (0 == b.arity) = false := by simp; omega
+    simp [h1, h2]
+  · intro args hargs
+    simp [applyFn, Val.arity, hargs]
+
+/-- `and [a] [b]` ↦ `[a & b]` (likewise `or`): the call evaluates to the query the literal denotes -/
+theorem build_query_step (fuel : Nat) (env : Env) (a b : Query) (p : Bool) :
+    evalWith (applyFn (fuel + 1)) env (.call (.sym "and") [.lit (.query a), .lit (.query b)] p)
+      = .ok (.query (.inter [a, b])) ∧
+    evalWith (applyFn (fuel + 1)) env (.call (.sym "or") [.lit (.query a), .lit (.query b)] p)
+      = .ok (.query (.union [a, b])) := ⟨rfl, rfl⟩
+
+/-- `{add -> pair 1 (add)} 7`: inside the lambda `(add)` calls the global function; simplified to
+`add` it is the lambda's parameter -/
+def shadowWitness : Expr :=
+  c (.lam ["add"] (c (.sym "pair") [i 1, c (.sym "add") []])) [i 7]
+
+/-- The rewrite `(f)` ↦ `f` (and `{a -> f a}` ↦ `f`) moves `f` from function position, where it
+names the global function, to value position, where an enclosing parameter of the same name captures
+it: the original program yields a pair of 1 and a function, the simplified one `(pair 1 7)`. -/
+theorem shadow_capture_counterexample :
+    simplify shadowWitness = some (c (.lam ["add"] (c (.sym "pair") [i 1, .sym "add"])) [i 7]) ∧
+    interp 50 shadowWitness = .ok (.pair (.int 1) (.part (.builtin .add) [] [])) ∧
+    interp 50 (c (.lam ["add"] (c (.sym "pair") [i 1, .sym "add"])) [i 7]) = .ok (.pair (.int 1) (.int 7)) ∧
+    Simplify.shadowsGlobal shadowWitness = true :=
+  ⟨rfl, rfl, rfl, rfl⟩
+
+end B6.Props.C22
